@@ -181,6 +181,11 @@ def neutralOffset (T : MassTable) (mono : Bool) (t : Key) : Option Rat :=
       else none
     | _ => none
 
+/-- offset of the singly charged ion of type `t` from the bare residue sum: backbone offset + the charge carrier
+(`n` is the bare, uncharged residue sum) -/
+def ionOffset (T : MassTable) (mono : Bool) (t : Key) : Option Rat :=
+  if t = k "n" then some 0 else (neutralOffset T mono t).map (· + T.hplus mono)
+
 /-- residue sum from the hand-typed formulas -/
 def residueSum (T : MassTable) (mono : Bool) (seq : List Char) : Option Rat :=
   seq.foldl (fun acc c => match acc, lookup c.toNat residueFormula with
@@ -199,7 +204,10 @@ def adductTerm (T : MassTable) (mono : Bool) (s : List Nat) : Option Rat :=
 leaves (`hplus`), every further one a proton; or exactly the stated adduct ions -/
 def chargeTerm (T : MassTable) (mono : Bool) (ion : Key) (charge : Int) (adducts : Option (List Nat)) : Option Rat :=
   match adducts with
-  | some s => adductTerm T mono s
+  | some s =>
+    -- an explicit adduct list is specified for the (un)charged peptide only: for fragment ion types the library
+    -- replaces the whole ion-forming part (transferred hydrogens included) by the list, which C02 does not cover
+    if ion = ionP || ion = ionN then adductTerm T mono s else none
   | none =>
     if ion = ionP || ion = ionN then some ((charge : Rat) * T.proton)
     else some (T.hplus mono + ((charge : Rat) - 1) * T.proton)
